@@ -167,7 +167,10 @@ impl HugePage {
         }
 
         // Round up size to multiple of page size
-        let aligned_size = (size + page_size - 1) & !(page_size - 1);
+        let aligned_size = match size.checked_add(page_size - 1) {
+            Some(rounded) => rounded & !(page_size - 1),
+            None => return Err(ZiporaError::out_of_memory(size)),
+        };
 
         // Try to allocate using mmap with MAP_HUGETLB
         let ptr = unsafe {
